@@ -90,8 +90,11 @@ func GenReg(seed, run uint64, tier, mode string) *plan.Plan {
 		p.Shared = append(p.Shared, GenDec(r, wide))
 	}
 	// related operands (same digit count / neighbouring exponent)
-	for i := r.Intn(3); i > 0; i-- {
-		p.Shared = append(p.Shared, Sibling(r, p.Shared[r.Intn(len(p.Shared))]))
+	var pairs [][2]int
+	for i := 1 + r.Intn(3); i > 0; i-- {
+		a := r.Intn(len(p.Shared))
+		p.Shared = append(p.Shared, Sibling(r, p.Shared[a]))
+		pairs = append(pairs, [2]int{a, nshared})
 		nshared++
 	}
 	var tk plan.Task
@@ -247,6 +250,20 @@ func GenReg(seed, run uint64, tier, mode string) *plan.Plan {
 				continue
 			}
 			break
+		}
+		if aliasOn && len(pairs) > 0 && Ops[st.Op].Kind == KCtx3 && (st.X == st.D || st.Y == st.D) && st.X != st.Y && r.Chance(1, 3) {
+			// the aliased register is first loaded with one operand of a related
+			// pair and the other operand of the call is its sibling
+			pr := pairs[r.Intn(len(pairs))]
+			if r.Bool() {
+				pr[0], pr[1] = pr[1], pr[0]
+			}
+			tk.Steps = append(tk.Steps, plan.Step{Op: "DSet", Ctx: st.Ctx, D: st.D, X: fmt.Sprintf("s%d", pr[0])})
+			if st.X == st.D {
+				st.Y = fmt.Sprintf("s%d", pr[1])
+			} else {
+				st.X = fmt.Sprintf("s%d", pr[1])
+			}
 		}
 		if poisonOn && st.D != "" {
 			switch {
